@@ -1,5 +1,8 @@
 import Zstd.Model.FrameDecoder
 import Zstd.Proofs.FrameDecoderFollows
+import Zstd.Proofs.BlockRefines
+import Zstd.Proofs.BlkLitFull
+import Zstd.Props.C13
 /-
 C01 — the decoder reproduces the original data for every valid frame.
 
@@ -236,5 +239,172 @@ example : Spec.execSequences 1024 #[] [⟨2, 4, 5⟩] [97, 98, 99] ⟨1, 4, 8⟩
 
 /-- non-vacuity: a raw last block header of size 4 -/
 example : Model.parseBlockHeader 0x21 0 0 = .ok ⟨true, 0, 4, 4⟩ := by decide
+
+/-! ## block level: the faithful model `Blk.decompressBlock` refines `Spec.decodeCompressedBlock`
+
+The model side is `Zstd/Model/BlockDecode.lean` (statement-by-statement mirror of `decompress_block`,
+`decode_literals`, `decode_sequences`, `maybe_update_fse_tables`, both sequence loops; engine `blk`
+compares it with the real code block by block).  The entropy states are related by
+`Proofs.Blk.Coupled` (Huffman table: same cells; each FSE channel: the Spec's table in force is the
+model's built table, or the one-state table of the model's RLE symbol; same offset history).
+Helper lemmas: `Proofs/BlkLitRefines` (headers), `Proofs/BlkSeqTables` (table modes),
+`Proofs/BlkSeqStream` (bitstream), `Proofs/BlockRefines` (composition). -/
+
+open Zstd.Proofs.Blk Zstd.Proofs.BitIO in
+/-- **sequences section** — all four modes per table (Predefined, RLE, FSE_Compressed, Repeat), every
+sequence-count encoding, the interleaved three-state bitstream with up to 31 + 16 + 16 extra bits per
+sequence: what `Spec.decodeSequences` yields, `parse_from_header` + `decode_sequences` yield, and the
+tables left in the scratch are again coupled with the Spec's tables in force -/
+theorem decodeSequences_refines {bytes : List Nat} (hb : Bytes bytes) {e e' : Spec.Entropy}
+    {s : Blk.FseScratch} {seqs : List Spec.Seq} (hc : FseCoupled e s)
+    (hs : Spec.decodeSequences bytes e = some (seqs, e')) :
+    ∃ n modes shLen, parseSeqHeader bytes = .ok (n, modes, shLen) ∧
+      (n = 0 → seqs = [] ∧ e' = e ∧ (bytes.drop shLen).isEmpty = true) ∧
+      (n ≠ 0 → ∃ s', Blk.decodeSequences n modes (bytes.drop shLen) s = (s', .ok seqs) ∧ FseCoupled e' s' ∧
+        e'.huf = e.huf ∧ e'.hist = e.hist) :=
+  Zstd.Proofs.Blk.decodeSequences_refines hb hc hs
+
+open Zstd.Proofs.Blk Zstd.Proofs.BitIO in
+/-- **literals header**: the code's `parse_from_header` returns the RFC's fields (for the transcription
+`Spec.parseLitHeader` that `Spec.decodeLiterals` uses; the two transcriptions of §3.1.1.3.1.1 agree:
+`Proofs.Blk.specLitHeader_agree`) -/
+theorem literalsHeader_refines {bs : List Nat} (hb : Bytes bs) {H : Spec.LitHeader}
+    (h : Spec.parseLitHeader bs = some H) :
+    ∃ sec, Hdr.parseLitHeader Hdr.LitSection.new bs = .ok (sec, H.hdrLen) ∧ sec.ty = H.ltype ∧ sec.regen = H.regen ∧
+      (H.ltype < 2 → sec.comp = none) ∧
+      (¬ H.ltype < 2 → sec.comp = some H.comp ∧ sec.streams = some H.streams) :=
+  parseLitHeader_refines hb h
+
+open Zstd.Proofs.Blk Zstd.Proofs.BitIO in
+/-- **Raw and RLE literals** (all size formats): header, `upper_limit_for_literals`, the length check
+and `decode_literals` deliver exactly the Spec's literals, the byte count, and leave the Huffman table
+alone -/
+theorem decodeLiterals_refines_raw_rle {bytes : List Nat} (hb : Bytes bytes)
+    {prev huf' : Option Spec.Huffman.Table} {lits : List Nat} {used : Nat} {t : Huf.DecTable}
+    (hc : HufCoupled prev t) (hs : Spec.decodeLiterals bytes prev = some (lits, used, huf'))
+    (hty : ∀ H, Spec.parseLitHeader bytes = some H → H.ltype < 2) :
+    LitStage bytes t lits used huf' :=
+  Zstd.Proofs.Blk.decodeLiterals_refines_raw_rle hb hc hs hty
+
+/-- the literals stage for all four section types (a theorem: `blk_decodeLiterals_refines` below) -/
+def decodeLiterals_refines_full : Prop := Zstd.Proofs.Blk.decodeLiterals_refines_full
+
+open Zstd.Proofs.Blk in
+/-- **Huffman-coded literals, as far as C13 reaches**: for every weight list the Spec accepts, the
+table `build_table_from_weights` builds is coupled with the Spec's (`huf_table_eq_canonical`: same
+`Max_Number_of_Bits`, same cells) and well formed for the stream decoder (`HufBuilt`: every cell
+consumes 1..max bits, `2^max` cells).  (Kept under its `_partial` name; the rest of the Huffman
+literals stage — `read_weights` = `Spec.Huffman.readWeights` in both forms, the one- and four-stream
+loops against `Spec.Huffman.decodeStream` — is `decodeLiterals_refines_huffman` below.) -/
+theorem decodeLiterals_refines_huffman_table_partial (t : Huf.DecTable) (T : Spec.Huffman.Table)
+    (hspec : Spec.Huffman.tableOfWeights t.weights = some T) :
+    ∃ t', Huf.buildTableFromWeights t = (t', .ok ()) ∧ HufCoupled (some T) t' := by
+  obtain ⟨t', hb, hm, _, _, hcells⟩ := Zstd.Props.C13.huf_table_eq_canonical t T hspec
+  have hlen : t.weights.length ≤ 257 := by
+    unfold Spec.Huffman.tableOfWeights at hspec
+    cases hc : Spec.Huffman.completeWeights t.weights with
+    | none => rw [hc] at hspec; cases hspec
+    | some p =>
+      obtain ⟨m, all⟩ := p
+      rw [hc] at hspec
+      simp only at hspec
+      obtain ⟨_, _, hall⟩ := (Zstd.Props.C13.spec_complete_iff _ _ _).mp hc
+      by_cases hl : all.length > 256
+      · rw [if_pos hl] at hspec; cases hspec
+      · rw [hall] at hl; simp at hl; omega
+  have hbuilt := buildTableFromWeights_ok hlen hb
+  refine ⟨t', hb, Or.inr hbuilt, ?_⟩
+  intro T' hT
+  simp only [Option.some.injEq] at hT
+  subst hT
+  exact ⟨hbuilt, hm, hcells⟩
+
+open Zstd.Proofs.Blk Zstd.Proofs.BitIO Zstd.Proofs.DictCopy in
+/-- **the block, given the literals stage** (`_partial`: the hypothesis `hlit` is discharged for Raw/RLE
+literals by `decompressBlock_refines_raw_rle` and in general by `blk_decodeLiterals_refines`; the
+hypothesis-free statement is `blk_decompressBlock_refines`): whenever the RFC semantics decodes the compressed block `bytes` in
+entropy state `e` on top of the output `out` (window and dictionary rules included), the code, in a
+coupled state with a buffer holding that output's tail, returns `Ok`, has appended the same bytes, and
+leaves the same offset history and coupled tables for the next block -/
+theorem decompressBlock_refines_partial {window : Nat} {dict : Array Nat} {bytes : List Nat}
+    {e e' : Spec.Entropy} {out out' : Array Nat} {s : Blk.Scratch} {b : DBuf}
+    (hb : Bytes bytes) (hc : Coupled e s)
+    (hd : b.dict = dict) (hw : b.window = window) (hout : b.hashed ++ b.content = out)
+    (hco : CounterOk b) (hre : Retained b)
+    (hs : Spec.decodeCompressedBlock window dict bytes e out = some (out', e'))
+    (hlit : ∀ lits used huf', Spec.decodeLiterals bytes e.huf = some (lits, used, huf') →
+      LitStage bytes s.huf lits used huf') :
+    ∃ s' b' lits seqs, Blk.decompressBlock bytes s b = ((s', b', lits, seqs), .ok) ∧ Coupled e' s' ∧
+      b'.hashed = b.hashed ∧ b.hashed ++ b'.content = out' ∧ b'.dict = dict ∧ b'.window = window ∧
+      CounterOk b' ∧ Retained b' :=
+  decompressBlock_refines_of_litStage hb hc hd hw hout hco hre hs hlit
+
+open Zstd.Proofs.Blk Zstd.Proofs.BitIO Zstd.Proofs.DictCopy in
+/-- **blocks whose literals are Raw or RLE: full refinement, no hypothesis left** -/
+theorem decompressBlock_refines_raw_rle {window : Nat} {dict : Array Nat} {bytes : List Nat}
+    {e e' : Spec.Entropy} {out out' : Array Nat} {s : Blk.Scratch} {b : DBuf}
+    (hb : Bytes bytes) (hc : Coupled e s)
+    (hd : b.dict = dict) (hw : b.window = window) (hout : b.hashed ++ b.content = out)
+    (hco : CounterOk b) (hre : Retained b)
+    (hs : Spec.decodeCompressedBlock window dict bytes e out = some (out', e'))
+    (hty : ∀ H, Spec.parseLitHeader bytes = some H → H.ltype < 2) :
+    ∃ s' b' lits seqs, Blk.decompressBlock bytes s b = ((s', b', lits, seqs), .ok) ∧ Coupled e' s' ∧
+      b'.hashed = b.hashed ∧ b.hashed ++ b'.content = out' ∧ b'.dict = dict ∧ b'.window = window ∧
+      CounterOk b' ∧ Retained b' :=
+  Zstd.Proofs.Blk.decompressBlock_refines_raw_rle hb hc hd hw hout hco hre hs hty
+
+/-- the full block statement (every literals type) … -/
+def decompressBlock_refines_full : Prop := Zstd.Proofs.Blk.decompressBlock_refines_full
+
+/-- … follows from the full literals stage alone -/
+theorem decompressBlock_refines_full_of_literals (h : decodeLiterals_refines_full) :
+    decompressBlock_refines_full :=
+  Zstd.Proofs.Blk.decompressBlock_refines_full_of_literals h
+
+open Zstd.Proofs.Blk Zstd.Proofs.BitIO in
+/-- **Huffman-coded literals** (Compressed and Treeless sections, one stream or four streams with the
+jump table, tree description in direct or FSE-compressed form): `decode_literals` delivers the Spec's
+literals and byte count and leaves a table coupled with the Spec's table in force -/
+theorem decodeLiterals_refines_huffman {bytes : List Nat} (hb : Bytes bytes)
+    {prev huf' : Option Spec.Huffman.Table} {lits : List Nat} {used : Nat} {t : Huf.DecTable}
+    (hc : HufCoupled prev t) (hs : Spec.decodeLiterals bytes prev = some (lits, used, huf'))
+    (hty : ∀ H, Spec.parseLitHeader bytes = some H → ¬ H.ltype < 2) :
+    LitStage bytes t lits used huf' :=
+  Zstd.Proofs.Blk.decodeLiterals_refines_huffman hb hc hs hty
+
+/-- **`decodeLiterals_refines_full` holds**: the literals stage for all four section types -/
+theorem blk_decodeLiterals_refines : decodeLiterals_refines_full :=
+  Zstd.Proofs.Blk.decodeLiterals_refines_full_proved
+
+/-- **`decompressBlock_refines_full` holds**: for every block the RFC semantics decodes — Raw, RLE,
+Compressed or Treeless literals in one or four streams and every size format, Predefined / RLE /
+FSE_Compressed / Repeat sequence tables, repeat offsets, overlapping matches, dictionary reach-back —
+`decompress_block` returns `Ok`, has appended the same bytes to the decode buffer, and leaves the
+same offset history and an entropy state coupled with the Spec's for the next block -/
+theorem blk_decompressBlock_refines : decompressBlock_refines_full :=
+  Zstd.Proofs.Blk.decompressBlock_refines_full_proved
+
+/-- non-vacuity: the Spec accepts a compressed block with Raw literals `abcd` and one sequence in RLE
+modes (literal length 4, match length 3, offset 1) on the initial state, which is coupled with a
+fresh scratch; its literals header is of type Raw -/
+example : (Spec.decodeCompressedBlock 1024 #[] [0x20, 0x61, 0x62, 0x63, 0x64, 0x01, 0x54, 0x04, 0x02, 0x00, 0x04]
+      {} #[]).isSome = true ∧ Zstd.Proofs.Blk.Coupled {} {} ∧
+    (∀ H, Spec.parseLitHeader [0x20, 0x61, 0x62, 0x63, 0x64, 0x01, 0x54, 0x04, 0x02, 0x00, 0x04] = some H → H.ltype < 2) := by
+  refine ⟨by decide +kernel, Zstd.Proofs.Blk.coupled_fresh, ?_⟩
+  intro H h
+  have : H = ⟨0, 4, 0, 0, 1⟩ := by
+    have e : Spec.parseLitHeader [0x20, 0x61, 0x62, 0x63, 0x64, 0x01, 0x54, 0x04, 0x02, 0x00, 0x04] = some ⟨0, 4, 0, 0, 1⟩ := by
+      decide +kernel
+    rw [e] at h; cases h; rfl
+  subst this; decide
+
+/-- non-vacuity of `blk_decompressBlock_refines` for Huffman-coded literals: the only block of a real
+libzstd frame (zstd level 19 on 180 bytes of English text; Compressed literals, single stream, tree
+description in the FSE-compressed form, FSE_Compressed sequence tables) is accepted by the Spec on the
+initial entropy state, which is coupled with a fresh scratch -/
+example : (Spec.decodeCompressedBlock 1024 #[]
+      [34, 134, 18, 18, 144, 207, 1, 96, 131, 13, 54, 216, 34, 139, 12, 250, 255, 255, 224, 250, 131, 28, 135, 145, 225, 151, 132, 156, 76, 211, 51, 191, 120, 4, 216, 71, 98, 151, 236, 1, 238, 120, 200, 16, 180, 224, 142, 95, 220, 241, 99, 129, 23, 54, 110, 47, 72, 231, 142, 127, 60, 217, 97, 83, 242, 188, 50, 242, 69, 217, 11, 71, 194, 72, 119, 238, 24, 5, 0, 210, 131, 156, 58, 91, 48, 10, 243, 86, 13, 33, 9, 19, 10]
+      {} #[]).isSome = true ∧ Zstd.Proofs.Blk.Coupled {} {} :=
+  ⟨by decide +kernel, Zstd.Proofs.Blk.coupled_fresh⟩
 
 end Zstd.Props.C01
